@@ -241,8 +241,34 @@ class ModuleNormalizer(object):
                 for a in n.names:
                     modnames.add((a.asname or a.name).split(".")[0])
         self.modnames = modnames
-        self.mod_consts = {k: v for k, v in self.mod_consts.items() if k not in self.known_consts and self._literal(v)}
-        self.cls_consts = {k: v for k, v in self.cls_consts.items() if "%s.%s" % k not in self.known_consts and self._literal(v)}
+        # a container that the module mutates (a registry / cache filled at run time: NAME[k] = v, NAME.append(..), del NAME[k], NAME |= ..) is a shared
+        # OBJECT, not a constant: substituting the literal for its uses would give every use a fresh empty container
+        MUT = {"append", "extend", "insert", "add", "update", "setdefault", "pop", "popitem", "remove", "discard", "clear", "sort", "reverse", "appendleft"}
+        mutated = set()
+        for n in ast.walk(self.tree):
+            if isinstance(n, ast.Subscript) and isinstance(n.ctx, (ast.Store, ast.Del)):
+                b_ = n.value
+                if isinstance(b_, ast.Name):
+                    mutated.add(b_.id)
+                elif isinstance(b_, ast.Attribute) and isinstance(b_.value, ast.Name):
+                    mutated.add(b_.attr)
+            elif isinstance(n, ast.Call) and isinstance(n.func, ast.Attribute) and n.func.attr in MUT:
+                b_ = n.func.value
+                if isinstance(b_, ast.Name):
+                    mutated.add(b_.id)
+                elif isinstance(b_, ast.Attribute) and isinstance(b_.value, ast.Name):
+                    mutated.add(b_.attr)
+            elif isinstance(n, ast.AugAssign):
+                b_ = n.target
+                if isinstance(b_, ast.Name):
+                    mutated.add(b_.id)
+                elif isinstance(b_, ast.Attribute) and isinstance(b_.value, ast.Name):
+                    mutated.add(b_.attr)
+
+        def container(v):
+            return isinstance(v, (ast.List, ast.Dict, ast.Set)) or (isinstance(v, ast.Call) and isinstance(v.func, ast.Name) and v.func.id in ("dict", "list", "set", "OrderedDict", "defaultdict"))
+        self.mod_consts = {k: v for k, v in self.mod_consts.items() if k not in self.known_consts and self._literal(v) and not (container(v) and k in mutated)}
+        self.cls_consts = {k: v for k, v in self.cls_consts.items() if "%s.%s" % k not in self.known_consts and self._literal(v) and not (container(v) and k[1] in mutated)}
 
     def _literal(self, e, depth=0):
         if depth > 6:
